@@ -160,13 +160,17 @@ class HyteraIPSC:
             + self.frame_type.value.to_bytes(2, byteorder="little")
             + self.reserved_2a[0:2]
             + byteswap_bytes(
-                self.payload
-                if isinstance(self.payload, bytes)
-                else (self.payload.as_bytes() + b"\x00")
+                (
+                    self.payload
+                    if isinstance(self.payload, bytes)
+                    else self.payload.as_bytes()
+                )
+                # 33 bytes of burst are padded to 17 swapped pairs
+                + b"\x00"
             )
             + self.reserved_2b[0:2]
             + self.call_type.value.to_bytes(1, byteorder="little")
-            + self.destination_radio_id.to_bytes(4, byteorder="little")
-            + self.source_radio_id.to_bytes(4, byteorder="little")
+            + (self.destination_radio_id << 8).to_bytes(4, byteorder="little")
+            + (self.source_radio_id << 8).to_bytes(4, byteorder="little")
             + self.reserved_1[0:1]
         )
